@@ -23,6 +23,9 @@ TEXT = {
  "C11": ("seeded deterministic simulation of header/trailer propagation; oracle: every key/value set by one side is observed by the other in per-key order",
          "Seeded search over metadata multimaps x protocols x kinds x outcomes under adversarial schedules and segmentation; exploration is the honest level for an unbounded input space.",
          "5 C11"),
+ "C14": ("seeded deterministic simulation with adversarial scheduling at library yield points; oracle: bounded termination on the fake clock, leak scan, Send/Receive stickiness",
+         "Seeded search over operation sequences x handler programs x schedules, including delays at every single library synchronisation point and every pair (sampled by tape; coverage of pairs is counted in the evidence). Liveness is decided as deterministic hang detection on the simulated clock, which real-time tests cannot do.",
+         "5 C14"),
 }
 
 hooks_commits = subprocess.run(["git", "-C", "/repo", "log", "--format=%H", "--grep=^verif:"], capture_output=True, text=True).stdout.split()
